@@ -103,6 +103,11 @@ def normalise_cmp(op, a, b, loc="?", bb=None):
         # const OP b  ==  b SWAP(OP) const
         A, ka, B, kb = B, kb, None, ka
         op = SWAP[op]
+    if B is None:
+        # (x - y) OP k   ==   x - y OP k  in difference form (so that `hi - lo > 0` and `hi > lo` are one fact)
+        a0 = deep_strip(A)
+        if a0[0] == "bin" and a0[1] == "Sub" and strip_casts(a0[3])[0] != "const":
+            A, B = a0[2], a0[3]
     c = Cmp()
     c.loc = loc
     c.bb = bb
